@@ -25,7 +25,7 @@ theorem isMin_of_pop (hk : KInv s a) (hp : popMin s.agenda = some (q, rest)) :
   · exact sp.2 x hx
 
 /-- **one kernel step = one configuration step** -/
-theorem kstep (hr : 0 < rate) (fuel : Nat) {outs : List (Int × ℚ)} (hk : KInv s a)
+theorem kstep (fuel : Nat) {outs : List (Int × ℚ)} (hk : KInv s a)
     (hi : AInv size rate arrivals a s.now outs) (hp : popMin s.agenda = some (q, rest)) :
     ∃ s' a' new, step (body size rate) (fuel + 1) s = .ok s' ∧ KInv s' a' ∧ AStep size rate a q a' new ∧
       s'.now = q.time ∧ outsOf s'.trace = outsOf s.trace ++ new := by
@@ -59,8 +59,16 @@ theorem kstep (hr : 0 < rate) (fuel : Nat) {outs : List (Int × ℚ)} (hk : KInv
       exact ⟨s', _, [], h1, h2, AStep.portInit a q _ hport, h3, by simpa using h4⟩
     | H g id q0 =>
       simp only [hport, PPhase.entries, List.mem_singleton] at hq; subst hq
-      obtain ⟨s', h1, h2, h3, h4⟩ := kstep_serve (size := size) fuel hr hk hport hp hrest
-      exact ⟨s', _, [], h1, h2, AStep.serveTx a q _ g _ id hport hr ⟨rfl, rfl⟩, h3, by simpa using h4⟩
+      by_cases hr : 0 < rate
+      · obtain ⟨s', h1, h2, h3, h4⟩ := kstep_serve (size := size) fuel hr hk hport hp hrest
+        exact ⟨s', _, [], h1, h2, AStep.serveTx a q _ g _ id hport hr ⟨rfl, rfl⟩, h3, by simpa using h4⟩
+      · cases hit : a.items with
+        | nil =>
+          obtain ⟨s', h1, h2, h3, h4⟩ := kstep_serveNowIdle (size := size) fuel hr hk hport hit hp hrest
+          exact ⟨s', _, _, h1, h2, AStep.serveNowIdle a q g _ id hport hr hit, h3, h4⟩
+        | cons i is =>
+          obtain ⟨s', h1, h2, h3, h4⟩ := kstep_serveNowNext (size := size) fuel hr hk hport hit hp hrest
+          exact ⟨s', _, _, h1, h2, AStep.serveNowNext a q _ g _ id i is hport hr hit ⟨rfl, rfl⟩, h3, h4⟩
     | T t id q0 =>
       simp only [hport, PPhase.entries, List.mem_singleton] at hq; subst hq
       cases hit : a.items with
@@ -166,15 +174,15 @@ structure Inv (size : Int → Nat) (rate : ℚ) (arrivals : List (ℚ × Int)) (
 
 /-- **one kernel step**: it is `.ok`, keeps the invariant, uses one unit of the step budget, appends the departures
 `new` to the trace, and is a sequence of actions the Port LTS accepts from `toF a` to `toF a'` -/
-theorem inv_step (hr : 0 < rate) (fuel : Nat) (h : Inv size rate arrivals s a)
+theorem inv_step (fuel : Nat) (h : Inv size rate arrivals s a)
     (hp : popMin s.agenda = some (q, rest)) :
-    ∃ s' a' new, step (body size rate) (fuel + 1) s = .ok s' ∧ Inv size rate arrivals s' a' ∧ a'.mu + 1 = a.mu ∧
+    ∃ s' a' new, step (body size rate) (fuel + 1) s = .ok s' ∧ Inv size rate arrivals s' a' ∧ a'.mu + 1 ≤ a.mu ∧
       outsOf s'.trace = outsOf s.trace ++ new ∧
       ∃ acts insI, a'.putIds = a.putIds ++ insI ∧
         Fifo.runActs (Port.dev (cfg rate)) (toF size a s.now) acts =
           .ok (toF size a' s'.now, insI.map Int.toNat, new.map (·.1.toNat)) := by
-  obtain ⟨s', a', new, h1, h2, h3, h4, h5⟩ := kstep hr fuel h.k h.a hp
-  obtain ⟨g1, g2, g3⟩ := astep_sound hr h.a (isMin_of_pop h.k hp).1 h3
+  obtain ⟨s', a', new, h1, h2, h3, h4, h5⟩ := kstep fuel h.k h.a hp
+  obtain ⟨g1, g2, g3⟩ := astep_sound h.a (isMin_of_pop h.k hp).1 h3
   refine ⟨s', a', new, h1, ⟨h2, ?_⟩, g2, h5, ?_⟩
   · rw [h4, h5]; exact g1
   · rw [h4]; exact g3
@@ -223,7 +231,7 @@ theorem inv_final (h : Inv size rate arrivals s a) (he : s.agenda = []) :
       · simp [A.mu, hport, hsrc, hpe', hit, PPhase.mu, SPhase.mu]
 
 /-- **`run()` returns**: with more step budget than the configuration needs, `runLoop` ends with an empty agenda -/
-theorem run_returns (hr : 0 < rate) (fuel : Nat) : ∀ (n : Nat) (s : KS) (a : A), Inv size rate arrivals s a → a.mu < n →
+theorem run_returns (fuel : Nat) : ∀ (n : Nat) (s : KS) (a : A), Inv size rate arrivals s a → a.mu < n →
     ∃ sF aF, runLoop (body size rate) (fuel + 1) none n s = .returned .none sF ∧ Inv size rate arrivals sF aF ∧
       sF.agenda = []
   | 0, _, _, _, hmu => absurd hmu (Nat.not_lt_zero _)
@@ -234,8 +242,8 @@ theorem run_returns (hr : 0 < rate) (fuel : Nat) : ∀ (n : Nat) (s : KS) (a : A
       simp [runLoop, step, hp]
     | some qr =>
       obtain ⟨q, rest⟩ := qr
-      obtain ⟨s', a', new, h1, h2, h3, -, -⟩ := inv_step hr fuel h hp
-      have := run_returns hr fuel n s' a' h2 (by omega)
+      obtain ⟨s', a', new, h1, h2, h3, -, -⟩ := inv_step fuel h hp
+      have := run_returns fuel n s' a' h2 (by omega)
       simpa [runLoop, h1] using this
 
 /-! ## the initial state -/
@@ -400,7 +408,7 @@ theorem putIds_eq (h : Inv size rate arrivals s a) :
 
 /-- **every state reachable by kernel steps is a sound configuration, and the run so far is an admissible run of
 the Port LTS** from its initial state to the configuration's LTS state, with the same arrivals and departures -/
-theorem reach_inv (hr : 0 < rate) (fuel : Nat) (hg : GapsOK arrivals) {s : KS}
+theorem reach_inv (fuel : Nat) (hg : GapsOK arrivals) {s : KS}
     (h : KReach (body size rate) (fuel + 1) (initState arrivals) s) :
     ∃ a acts, Inv size rate arrivals s a ∧
       Fifo.runActs (Port.dev (cfg rate)) (Fifo.init ({ avg := 0 } : PortSt ℚ) 0) acts =
@@ -416,7 +424,7 @@ theorem reach_inv (hr : 0 < rate) (fuel : Nat) (hg : GapsOK arrivals) {s : KS}
     | none => simp [step, hp, StepResult.state?] at hs
     | some qr =>
       obtain ⟨q, rest⟩ := qr
-      obtain ⟨s'', a', new, h1, h2, -, h4, acts', insI, h5, h6⟩ := inv_step hr fuel hi hp
+      obtain ⟨s'', a', new, h1, h2, -, h4, acts', insI, h5, h6⟩ := inv_step fuel hi hp
       rw [h1] at hs
       simp only [StepResult.state?, Option.some.injEq] at hs
       subst hs
